@@ -282,16 +282,23 @@ func (r *PhaseReconciler) teardownPhaseObject(
 		object := &unstructured.Unstructured{}
 		object.SetOwnerReferences(currentObj.GetOwnerReferences())
 		r.ownerStrategy.RemoveOwner(owner.ClientObject(), object)
+		metadataPatch := map[string]interface{}{
+			// Only patch the revision that was inspected above,
+			// so owners added or removed by others in the meantime are not overwritten.
+			"resourceVersion": currentObj.GetResourceVersion(),
+			"ownerReferences": object.GetOwnerReferences(),
+		}
+		if ctrl := metav1.GetControllerOf(currentObj); ctrl == nil ||
+			!strings.HasPrefix(ctrl.APIVersion, corev1alpha1.GroupVersion.Group+"/") {
+			// Nobody of us is left to look at this object through the dynamic cache.
+			// When another ObjectSet or ObjectSetPhase controls it, the label stays:
+			// it is how that controller finds the object, and a paused one would not restore it.
+			metadataPatch["labels"] = map[string]interface{}{
+				constants.DynamicCacheLabel: nil,
+			}
+		}
 		objectPatch := map[string]interface{}{
-			"metadata": map[string]interface{}{
-				// Only patch the revision that was inspected above,
-				// so owners added or removed by others in the meantime are not overwritten.
-				"resourceVersion": currentObj.GetResourceVersion(),
-				"labels": map[string]interface{}{
-					constants.DynamicCacheLabel: nil,
-				},
-				"ownerReferences": object.GetOwnerReferences(),
-			},
+			"metadata": metadataPatch,
 		}
 		objectPatchJSON, err := json.Marshal(objectPatch)
 		if err != nil {
